@@ -584,7 +584,7 @@ func c6textFor(r *gen.Rng, pl c6place) string {
 
 func c06Lexical(ctx *core.Ctx, r *gen.Rng) {
 	places := c6places()
-	n := ctx.Scale(26, 400)
+	n := ctx.Scale(26, 120)
 	if ctx.Tier == "search" {
 		n = 600
 	}
